@@ -172,6 +172,11 @@ def run(rep):
             if n.get("k") == "Call" and n.get("args") and n["args"][0].get("k") == "Borrow" and n["args"][0].get("mut") and re.search(r"\.(expression_raw|identifiers_raw)$", show(n["args"][0])):
                 writes.append(name)
     rep.check(not writes, "OPT-FLAG", "OPT-FLAG/raw-parts-immutable", "crate", "no function assigns to or mutably borrows Detection's raw parts after construction", str(writes))
+    # "rules that were optimised before being serialised": the reloaded rule is the unoptimised one, so its verdicts equal the optimised
+    # rule's only if the passes preserve verdicts; the structural rules about matcher rebuilding are shared with C01/C07
+    import core
+    core.import_rules(rep, "c01", {"REWRITE-CONST", "PASS-ARMS"})
+    core.import_rules(rep, "c07", {"FLAG"})
     rep.floor("T-SERDE-OUT", 3)
     rep.floor("T-SERDE-IN", 4)
     rep.floor("RAW=PARSED", 8)
